@@ -17,6 +17,32 @@ IO_METHODS = {"read": 1, "write": 1, "close_read": 0, "close_write": 0, "wait": 
 CONTROL = {"wait": ("wait", "result"), "kill": ("kill", "None"), "remoteaddress": ("remoteaddress", "result"), "close_write": ("close_write", "None")}
 
 
+def check_socket_blocking(ctx: Ctx, oid: str) -> None:
+    """the socket handed to SocketIO is a blocking one: exact reads/writes of the framing layer and the receiver thread's idle
+    wait assume that recv()/sendall() never time out (shared: C16.k, C02.p, C08.g)"""
+    with ctx.obligation(oid, "socket-blocking") as ob:
+        # a pipe blocks until data arrives, however long the pause: the socket the transport reads from must not carry a timeout
+        # (a connect timeout set on it has to be reset before the gateway uses it)
+        from ..terms import NONE as _Nk, evaluator as _evk
+        fcio = ctx.repo.func("gateway_socket.create_io")
+        nret = 0
+        for (pth, st_) in _evk(ctx.repo, fcio).run(limit=4000):
+            if pth[-1][0] != _evk(ctx.repo, fcio).cfg.exit.id and st_.ret is None:
+                continue
+            if st_.ret is None:
+                continue
+            nret += 1
+            tos = [e for e in st_.events if e.kind == "call" and e.attr in ("settimeout", "setblocking") and e.args]
+            if tos:
+                last = tos[-1]
+                blocking = (last.attr == "settimeout" and last.args[0] == _Nk) or (last.attr == "setblocking" and last.args[0] == ("const", True))
+                if not blocking:
+                    ob.violation(fcio, last.node, "the socket given to SocketIO keeps a timeout: after that long without traffic recv() raises in the receiver thread and the "
+                                                  "gateway is torn down, where a pipe transport just waits", construct="socket timeout stays set")
+        ob.site(fcio, fcio.node, "create_io returns a SocketIO on a socket without timeout", returning_paths=nret)
+        ob.require(nret >= 1, "gateway_socket.create_io: no returning path")
+
+
 def check_socket_halfclose(ctx: Ctx, oid: str) -> None:
     """SocketIO.close_read / close_write shut down exactly their own direction (socket.SHUT_RD = 0 / SHUT_WR = 1): Gateway.exit()
     closes only the writing side and keeps reading what the worker still sends -- as a pipe transport does (shared: C16.i, C02.n)"""
@@ -211,29 +237,38 @@ def check(ctx: Ctx) -> None:
     from .C05 import check_kill_on_timeout
     check_kill_on_timeout(ctx, "C16.h")
     check_socket_halfclose(ctx, "C16.i")
-    with ctx.obligation("C16.k", "socket-blocking") as ob:
-        # a pipe blocks until data arrives, however long the pause: the socket the transport reads from must not carry a timeout
-        # (a connect timeout set on it has to be reset before the gateway uses it)
-        from ..terms import NONE as _Nk, evaluator as _evk
-        fcio = ctx.repo.func("gateway_socket.create_io")
-        nret = 0
-        for (pth, st_) in _evk(ctx.repo, fcio).run(limit=4000):
-            if pth[-1][0] != _evk(ctx.repo, fcio).cfg.exit.id and st_.ret is None:
-                continue
-            if st_.ret is None:
-                continue
-            nret += 1
-            tos = [e for e in st_.events if e.kind == "call" and e.attr in ("settimeout", "setblocking") and e.args]
-            if tos:
-                last = tos[-1]
-                blocking = (last.attr == "settimeout" and last.args[0] == _Nk) or (last.attr == "setblocking" and last.args[0] == ("const", True))
-                if not blocking:
-                    ob.violation(fcio, last.node, "the socket given to SocketIO keeps a timeout: after that long without traffic recv() raises in the receiver thread and the "
-                                                  "gateway is torn down, where a pipe transport just waits", construct="socket timeout stays set")
-        ob.site(fcio, fcio.node, "create_io returns a SocketIO on a socket without timeout", returning_paths=nret)
-        ob.require(nret >= 1, "gateway_socket.create_io: no returning path")
+    check_socket_blocking(ctx, "C16.k")
     with ctx.obligation("C16.j", "empty-read-is-eof") as ob:
         # the proxied transport signals its end by an empty read, the others by raising: both must end in EOFError at the framing layer
         from .C08 import check_empty_header_eof
         check_empty_header_eof(ctx.repo, ob)
 
+    # the proxied transport reports the end of the worker's stream when it happens, like a pipe does: once the forwarding loop of
+    # serve_proxy_io has seen EOF from the sub, nothing may block before the function returns (returning is what closes the proxy
+    # channel, i.e. what the initiator sees as EOF)
+    with ctx.obligation("C16.l", "proxy-forwards-eof-at-once") as ob:
+        fsp = ctx.repo.func("gateway_io.serve_proxy_io")
+        cfgp = build_cfg(ctx.repo, fsp, Oracle(ctx.repo, fsp))
+        loops = [n for n in ctx.repo.own_nodes(fsp) if isinstance(n, ast.While) and any(isinstance(c, ast.Call) and callee_attr(c) == "from_io" for c in ast.walk(n))]
+        ob.require(len(loops) == 1, "serve_proxy_io: forwarding loop (Message.from_io) not found")
+        breaks = [n for n in cfgp.nodes if isinstance(n.ast, ast.Break) and any(n.ast is x for x in ast.walk(loops[0])) and n.id in cfgp.live()]
+        ob.require(len(breaks) >= 1, "serve_proxy_io: the forwarding loop has no exit")
+        BLOCKING = {"wait", "join", "waitclose", "receive", "get", "acquire", "sleep", "read", "readline", "waitall", "waitfinish", "communicate"}
+        seen_, work, nafter = set(), [m for b in breaks for (m, _l) in cfgp.succ[b.id]], 0
+        while work:
+            nid = work.pop()
+            if nid in seen_:
+                continue
+            seen_.add(nid)
+            node = cfgp.nodes[nid]
+            if node.ast is not None and not any(node.ast is x for x in ast.walk(loops[0])):
+                nafter += 1
+                for c in calls_in_node(node):
+                    if callee_attr(c) in BLOCKING and not any(k.arg == "timeout" for k in c.keywords):
+                        ob.violation(fsp, c, f"after EOF from the sub serve_proxy_io blocks in `{norm(c)[:50]}` before it returns: the initiator does not see the end of a proxied "
+                                             "gateway while the worker process lingers (a direct gateway reports EOF at once)", construct="blocking call after the forwarding loop")
+            work.extend(m for (m, _l) in cfgp.succ[nid])
+        ob.site(fsp, loops[0], "nothing blocks between EOF from the sub and the return of serve_proxy_io", statements_after_loop=nafter)
+    # the socket transport's IO class is shipped as class source only: everything it uses at run time must come with it
+    from ..report import borrow
+    borrow(ctx, "C15", {"C15.c": "C16.m"})
